@@ -35,3 +35,51 @@ def relax_end_inclusive(chk, cid, prog, cfgname):
                                 'relax_end[] stores the last column of a relaxed supernode (inclusive); the loop `%s` stops one column short, so the last column of every '
                                 'relaxed supernode (and the only column of a singleton) is skipped' % pretty(c), cfgname=cfgname)
     return n
+
+
+GLU_FIELDS = {'xsup', 'supno', 'lsub', 'xlsub', 'lusup', 'xlusup', 'ucol', 'usub', 'xusub', 'nzlmax', 'nzumax', 'nzlumax', 'n', 'MemModel',
+              'num_expansions', 'expanders', 'stack'}
+
+
+def glu_mirror_rule(chk, cid, prog, cfgname, units=None, floor=100):
+    """Repository idiom: a routine keeps local mirrors of the GlobalLU_t fields under the fields' own names (xlsub = Glu->xlsub, nzumax = Glu->nzumax,
+    Glu->nzlmax = nzlmax ...).  A local whose name is a field of GlobalLU_t may only be loaded from / stored to that very field: loading the capacity of
+    one array into the mirror of another (nzumax = Glu->nzlumax) makes later capacity tests and the counts written back describe the wrong array."""
+    from ..facts import strip, loc
+    chk.clause(cid, 'local mirrors of GlobalLU_t fields are loaded from and stored to the field of the same name')
+    n = 0
+
+    def glu_member(e):
+        e = strip(e)
+        if e.k == 'Member' and e.a['arrow'] and e.a['name'] in GLU_FIELDS:
+            b = strip(e.c[0])
+            if b.k == 'Ref' and (b.t or '').replace(' ', '').startswith('GlobalLU_t*'):
+                return e.a['name']
+        return None
+    for f in prog.all_funcs():
+        if units is not None and f.unit not in units:
+            continue
+        for x in f.body.walk():
+            pairs = []
+            if x.k == 'Assign' and x.a['op'] == '=':
+                l, r = strip(x.c[0]), strip(x.c[1])
+                if l.k == 'Ref' and glu_member(r):
+                    pairs.append((l.a['name'], glu_member(r), 'loaded from'))
+                if r.k == 'Ref' and glu_member(l):
+                    pairs.append((r.a['name'], glu_member(l), 'stored to'))
+            elif x.k == 'Var' and x.c and glu_member(x.c[0]):
+                pairs.append((x.a['name'], glu_member(x.c[0]), 'loaded from'))
+            for (v, fld, how) in pairs:
+                if v not in GLU_FIELDS or v == 'n':
+                    continue
+                n += 1
+                chk.saw(unit=f.unit, func=f.unit + ':' + f.name)
+                inst = '%s:%s:mirror:%s<->%s' % (f.unit, f.name, v, fld)
+                if v == fld:
+                    chk.ok(cid, inst)
+                else:
+                    chk.violate(cid, inst, loc(f, x), f.name, 'local `%s` (the mirror of Glu->%s) is %s Glu->%s' % (v, v, how, fld), cfgname=cfgname)
+    if n < floor:
+        from ..run import AnalysisBroken
+        raise AnalysisBroken('glu_mirror_rule: %d mirror loads/stores seen, floor %d' % (n, floor))
+    return n
